@@ -18,7 +18,6 @@ RULE = ('constructor form + history of <=25 (quick) / 40 (thorough) public OMD o
         'keys (0, 1, True, 1.0, "a", "b", None, (1, 2), frozenset({1})) and 10 values (some unhashable); after every step all '
         'reads are compared with a list-of-pairs reference model. non-trivial = some key held >=2 values and a '
         'removing/replacing operation was applied afterwards. distinct = distinct canonical JSON of the history.')
-RULE += ' History classes added in round 6: a second, live OrderedMultiDict (the donor) that is handed to update/update_extend/|= and keeps being changed afterwards, both objects compared with their own models; iterable arguments (addlist, update_extend) that raise while being consumed - the call raises and the mapping holds none or a prefix of the new pairs, all reads agreeing.'
 ASSUMPTIONS = [
     'popitem() is accepted if it returns (k, visible value of k) and removes either k\'s last pair or all of k\'s pairs',
     'update_extend(self) is not generated (statement silent)',
